@@ -5,6 +5,7 @@ C13 Edits keep derived views coherent; transactions atomic; copies independent.
 from ..r_protocol import run_protocol
 from ..r_construct import (rule_keep_lists, rule_literal_keys, rule_construction, rule_transaction, rule_ownership,
                            rule_symmetry, rule_changed_set)
+from ..r_alias import rule_no_mutation_of_cached, rule_no_stale_alias, rule_merge_fresh, rule_row_order
 
 LEVEL = 'other'
 
@@ -28,3 +29,7 @@ def run(ck, repo):
     rule_ownership(ck, repo)
     rule_symmetry(ck, repo)
     rule_changed_set(ck, repo)
+    rule_no_mutation_of_cached(ck, repo, 'A1-cached-value-not-mutated')
+    rule_no_stale_alias(ck, repo, 'A2-no-stale-alias')
+    rule_merge_fresh(ck, repo, 'A3-merge-fresh-copy')
+    rule_row_order(ck, repo, 'A4-row-order')
